@@ -7,6 +7,7 @@
 -/
 import InjModel.Lemmas.Counter
 import InjModel.Generated.Layout
+import InjModel.Generated.FakeArms
 namespace Inj.Props
 open Inj Inj.Counter
 
@@ -47,6 +48,14 @@ theorem C06_split (n : Nat) (sched : List Bool) :
 theorem C06_source_verifier : Generated.Layout.verifierChecksPanicking = true ∧
     Generated.Layout.verifierComparesNe = true ∧ Generated.Layout.verifierLoadsCounter = true := by decide
 
+/-- **Tie to the source, every arm**: each `fake!` arm that takes `times` starts its admitted
+    branch with the single atomic `fetch_add` followed by the `prev >= N` test — nothing is read
+    or written between taking the previous value and incrementing (a load-then-store update
+    would be extracted as unknown statements and fail here). -/
+theorem C06_arms_atomic : Generated.FakeArms.arms.all (fun a =>
+    !a.optTimes || (a.thenStmts.take 2 == [Generated.FakeArms.Stmt.fetchAddPrev, Generated.FakeArms.Stmt.ifPrevGeExpectedPanicOver]
+      && a.verifier == Generated.FakeArms.VerifierK.withCount && a.counterStatic)) = true := by decide
+
 /-- **Scope exit**: not unwinding — panics iff the count differs from N, naming both numbers;
     already unwinding — never panics. -/
 theorem C06_exit (n k : Nat) :
@@ -72,3 +81,4 @@ end Inj.Props
 #print axioms Inj.Props.C06_split
 #print axioms Inj.Props.C06_source_verifier
 #print axioms Inj.Props.C06_exit
+#print axioms Inj.Props.C06_arms_atomic
